@@ -265,7 +265,9 @@ impl C06 {
         // the wallet's own anchor must be usable in every pool
         if let Ok(Some((_, anchor))) = h.w.db.get_target_and_anchor_heights(NonZeroU32::MIN) {
             let a = u32::from(anchor);
-            let mem: Vec<bool> = id_sets.iter().map(|s| s.contains(&a)).collect();
+            // a pool whose tree has never held a leaf has nothing to witness and is not judged
+            let tip_sizes = h.sim.sizes_at(h.sim.tip_height());
+            let mem: Vec<bool> = id_sets.iter().enumerate().filter(|(pi, _)| tip_sizes[*pi] > 0).map(|(_, s)| s.contains(&a)).collect();
             self.anchor_checks += 1;
             if mem.iter().any(|m| *m) && !mem.iter().all(|m| *m) {
                 self.viol(h, r, "C06:anchor-height-not-checkpointed-in-every-pool",
@@ -400,6 +402,13 @@ impl Monitor for C06 {
         r.count("retained_boundaries_checked", self.boundaries_checked);
         r.count("retained_boundaries_on_blocks_without_commitments", self.boundaries_empty_block);
         r.count("rewinds", h.rewinds_done as u64);
+        r.count("rewinds_refused_by_wallet", h.rewinds_refused as u64);
+        r.count("deep_rewinds_attempted", h.deep_rewinds_attempted);
+        r.count("subtree_roots_put", h.subtree_roots_put);
+        r.count("shards_completed_by_chain", h.sim.completed_shards.len() as u64);
+        if h.cfg.shard_start {
+            r.count("histories_starting_at_shard_boundary", 1);
+        }
         r.count("rewinds_exposing_F1", h.rewinds_f1 as u64);
         r.count("f1_scan_failures", h.f1_scan_failures);
         if h.aborted.is_some() {
@@ -452,6 +461,10 @@ fn main() {
             cfg.initial_len = cfg.initial_len.min(70);
             cfg.max_batch = 150;
             cfg.steps = cfg.steps.min(14);
+        }
+        // histories that start next to a 2^16 subtree boundary
+        if i % 4 == 1 {
+            cfg.shard_start = true;
         }
         vh_wallet::hooks::install(if i % 2 == 0 { args.shard_seed() | 1 } else { 0 });
         let _ = vh_wallet::hooks::take();
